@@ -676,27 +676,29 @@ def unreachable_arm_variants(ctx, fnpath, params, subject='$m0'):
 
 
 def handshake_transitions(ctx):
-    """HandshakeState::process: state variant -> {'calls': [...], 'next': [assigned variants], 'events': [...]}"""
+    """HandshakeState::process, from its path table: state variant -> {'calls': callees on any path in that state,
+    'next': states installed on any path, 'rows': the paths}"""
+    import paths as P
     fnp = 'io_loop::handshake_state::HandshakeState::process'
-    events, _ = ctx.events(fnp)
-    fn = ctx.fn(fnp)
-    ms = [n for n in H.walk(fn['hir']) if n.get('k') == 'Match' and n.get('src') == 'Normal' and H.term(n['scrut']) == 'self']
-    if len(ms) != 1:
-        raise Unrecognised('HandshakeState::process: state match not found')
-    m = ms[0]
+    rows = P.table(ctx, fnp, ['self', 'inner', 'frame'])
     tbl = {}
-    for i, a in enumerate(m['arms']):
-        names = [variant_of(H.pat_term(x)) for x in H.pat_alternatives(a['pat'])]
-        evs = [e for e in events if any(g[0] == m['sp'] and g[1] == 'arm:%d' % i for g in e.guards)]
-        calls = [e.callee for e in evs if e.kind == 'call']
-        nxt = []
-        for e in evs:
-            if e.kind == 'assign' and S.show(e.lhs) == 'self':
-                t = e.term
-                nm = t[1] if t[0] in ('call', 'path') else S.show(t)
-                nxt.append(nm.split('::')[-1])
-        for nme in names:
-            tbl[nme] = {'calls': calls, 'next': nxt, 'events': evs, 'arm': a}
+    for x in rows:
+        st = [pred for subj, pred in x.conds if subj == 'self' and isinstance(pred, str) and 'HandshakeState::' in pred and not pred.startswith('not ')]
+        if not st:
+            continue
+        for alt in st[0].split(' | '):
+            nme = variant_of(alt)
+            t = tbl.setdefault(nme, {'calls': [], 'next': [], 'rows': []})
+            t['rows'].append(x)
+            for e in x.effects:
+                m = re.match(r'^self = ([\w:]+)', e)
+                if m:
+                    if m.group(1).split('::')[-1] not in t['next']:
+                        t['next'].append(m.group(1).split('::')[-1])
+                elif not e.startswith('let ') and '(' in e:
+                    t['calls'].append(e.split('(')[0])
+    if not tbl:
+        raise Unrecognised('HandshakeState::process: no path is decided by the state')
     return tbl
 
 
@@ -810,20 +812,25 @@ def registrations(ctx):
 
 
 def seal_before_closing_states(ctx):
-    """R08.1: every assignment of a closing state is dominated by seal_writes()."""
+    """R08.1: on every path, a closing state is installed only after seal_writes()."""
+    import paths as P
     n = 0
     for fnp, variants in (('io_loop::connection_state::ConnectionState::process', ('ServerClosing',)),
                           ('io_loop::connection_state::ConnectionState::client_exception', ('ClientException',)),
                           ('io_loop::handshake_state::HandshakeState::process', ('ServerClosing',))):
-        events, _ = ctx.events(fnp)
-        seals = [e for e in events if e.kind == 'call' and e.callee == 'io_loop::Inner::seal_writes']
-        for e in events:
-            if e.kind == 'assign' and S.show(e.lhs) == 'self':
-                nm = (e.term[1] if e.term[0] in ('call', 'path') else S.show(e.term)).split('::')[-1]
-                if nm in variants:
-                    n += 1
-                    if not any(S.dominates(s, e) for s in seals):
-                        return False, '%s assigns %s without a dominating seal_writes()' % (fnp, nm)
+        found = 0
+        for x in P.table(ctx, fnp):
+            sealed = False
+            for e in x.effects:
+                if e.startswith('io_loop::Inner::seal_writes('):
+                    sealed = True
+                m = re.match(r'^self = ([\w:]+)', e)
+                if m and m.group(1).split('::')[-1] in variants:
+                    found += 1
+                    if not sealed:
+                        return False, '%s assigns %s without a preceding seal_writes() on the path %s' % (fnp, m.group(1).split('::')[-1], x.cond_strs())
+        if found:
+            n += 1
     # no other function assigns those states
     for p, fn in ctx.fns.items():
         if 'hir' not in fn or p.endswith('::process') or p.endswith('client_exception'):
